@@ -110,10 +110,12 @@ LogicalViol(logical, root) ==
 (* ------------------------------ C29 ------------------------------ *)
 \* a statistic flagged Exact equals the value computed from the observed output.  Judged only where
 \* the whole output was observed: node consumed in full and each judged partition executed once.
-Of(N, p) == {s \in Streams(N) : p = 0 - 1 \/ N.streams[s].p = p}
+\* p >= 0: one partition; p = -1: whole node (StatisticsContext / partition_statistics(None)); p = -2: whole node as computed by
+\* the pluggable StatisticsRegistry with the built-in operator providers
+Of(N, p) == {s \in Streams(N) : p < 0 \/ N.streams[s].p = p}
 Judgeable(N, p) ==
   /\ N.full /\ \A s \in Streams(N) : Usable(N.streams[s])
-  /\ Cardinality(Of(N, p)) = (IF p = 0 - 1 THEN N.np ELSE 1)
+  /\ Cardinality(Of(N, p)) = (IF p < 0 THEN N.np ELSE 1)
 RowsOf(N, p) == Flatten([s \in Streams(N) |-> IF s \in Of(N, p) THEN StreamRows(N.streams[s]) ELSE <<>>])
 ColVals(rows, c) == [i \in 1..Len(rows) |-> rows[i][c]]
 AllInt(vals) == \A i \in 1..Len(vals) : vals[i].k = "i"
@@ -158,8 +160,21 @@ AggViol(ev) == {V(0, 0 - 1, "aggregate", k) : k \in {x \in 1..4 : ev.result[x] #
 (* ------------------------------ C53 ------------------------------ *)
 \* a node consumed in full (decided from the recorded End events) reports output_rows = rows emitted
 Emitted(N) == SeqSum([s \in Streams(N) |-> StreamCount(N.streams[s])])
+\* ... and, when every output_rows metric carries a partition label, partition by partition
+MetricOf(N, p) == SeqSum([i \in 1..Len(N.metrics.per) |-> IF N.metrics.per[i].p = p THEN N.metrics.per[i].n ELSE 0])
+EmittedOf(N, p) == SeqSum([s \in Streams(N) |-> IF N.streams[s].p = p THEN StreamCount(N.streams[s]) ELSE 0])
+PartsOf(N) == {N.metrics.per[i].p : i \in 1..Len(N.metrics.per)} \cup {N.streams[s].p : s \in Streams(N)}
+\* spill metrics of one operator are consistent: files were written iff rows were written (-1 = metric not registered)
+SpillConsistencyViol(N) ==
+  IF N.metrics.spills >= 0 /\ N.metrics.spilled >= 0 /\ ((N.metrics.spills > 0) # (N.metrics.spilled > 0))
+    THEN {V(N.id, 0 - 1, "spill_consistency", 0)} ELSE {}
 C53Viol(N) ==
-  IF N.full /\ N.metrics.has /\ N.metrics.rows # Emitted(N) THEN {V(N.id, 0 - 1, "output_rows", 0)} ELSE {}
+  SpillConsistencyViol(N) \cup
+  (IF ~(N.full /\ N.metrics.has) THEN {}
+   ELSE (IF N.metrics.rows # Emitted(N) THEN {V(N.id, 0 - 1, "output_rows", 0)} ELSE {})
+        \cup (IF SeqSum([i \in 1..Len(N.metrics.per) |-> N.metrics.per[i].n]) = N.metrics.rows
+                THEN {V(N.id, p, "part_rows", 0) : p \in {q \in PartsOf(N) : MetricOf(N, q) # EmittedOf(N, q)}}
+                ELSE {}))
 \* EXPLAIN ANALYZE: the real AnalyzeExec run over the instrumented plan renders, for every node consumed in
 \* full, output_rows = the rows the observer above that node counted.   an[j] = [id, has, rv, emitted, full]
 AnalyzeViol(an) ==
